@@ -491,6 +491,19 @@ def summary {P : Proto} (w : World P) : List (List Bytes) × Nat :=
 def demoAccept6 : List (Move (proto6 false)) :=
   [.call .a [] .connect, .deliver .a 0 [] .exact] ++ traffic (proto6 false) .exact 2 1
 
+/-- `World.quiescent` as a computable check -/
+def World.settled {P : Proto} (w : World P) : Bool :=
+  w.b.deliveredVital == w.a.submittedVital && w.a.deliveredVital == w.b.submittedVital &&
+  [Side.a, Side.b].all fun s => match P.online (w.get s).conn with
+    | some o => o.resendQueue.isEmpty && o.packet.chunks.isEmpty && !o.requestResend
+    | none => false
+
+/-- the demo traffic plus one more vital chunk each way, not yet flushed: both sides online, not settled -/
+def busy6 (tokenless : Bool) : List (Move (proto6 tokenless)) :=
+  demo6 tokenless ++ [.call .a [] (.send [5] true), .call .b [] (.send [6] true)]
+
+def busy7 : List (Move proto7) := demo7 ++ [.call .a [] (.send [5] true), .call .b [] (.send [6] true)]
+
 /-! ## The online cores alone (first stage of the development, kept as a self-contained result)
 
 `Core.Sys` is two `Online` states (indexed by `Bool`) without handshake and tokens; the moves use the
